@@ -43,28 +43,13 @@ def is_find(i, s, sub):
     return i == s.find(sub)
 
 
-class ListIter:
-    """A list iterator whose remaining items can be inspected without consuming them (the concrete
-    counterpart, in replays, of the engine's (sequence, position) cell for `Iterator[...]` parameters)."""
-
-    def __init__(self, items):
-        self.items = list(items)
-        self.pos = 0
-
-    def __iter__(self):
-        return self
-
-    def __next__(self):
-        if self.pos >= len(self.items):
-            raise StopIteration
-        self.pos += 1
-        return self.items[self.pos - 1]
+from pyvc.replaylib import PeekIter as ListIter      # noqa: E402  (a list iterator that can be inspected)
 
 
 def peek(it):
     """the items an iterator has left, without consuming them (spec level only)"""
     if isinstance(it, ListIter):
-        return it.items[it.pos:]
+        return it.xs[it.pos:]
     if isinstance(it, (list, tuple)):
         return list(it)
     raise TypeError('peek: not a spec-level iterator: %r' % (it,))
